@@ -757,4 +757,14 @@ theorem run_rep (ops : List POp) : ∀ (p : PList) (xs fs : List Nat) (s : LStat
     · simp only [run, runChain, e1, e2]; exact ih p xs fs s h
     · simp only [run, runChain, e1, e2]; exact ih p' xs' fs' s' h'
 
+theorem accepted_rep (ops : List POp) : ∀ (p : PList) (xs fs : List Nat) (s : LState), Rep p xs fs s →
+    accepted p ops = acceptedChain s ops := by
+  induction ops with
+  | nil => intro p xs fs s _; rfl
+  | cons op ops ih =>
+    intro p xs fs s h
+    rcases step_rep p xs fs s h op with ⟨e1, e2⟩ | ⟨p', s', xs', fs', e1, e2, h'⟩
+    · simp only [accepted, acceptedChain, e1, e2]; rw [ih p xs fs s h]
+    · simp only [accepted, acceptedChain, e1, e2]; rw [ih p' xs' fs' s' h']
+
 end Nstd.Seq.Ptr
